@@ -81,6 +81,7 @@ func trace(w *world, scripts [][]string, order []int, gets map[int][]int) []Ev {
 }
 
 type runner struct {
+	ca        *common.Cert
 	c         *common.Ctx
 	pool      *pool
 	abandoned int
@@ -222,7 +223,7 @@ func Run(c *common.Ctx) error {
 	}
 	c.Note("bundles: real CRLs (x509.CreateRevocationList), identified by content (base CRL id, delta CRL id); small ~%d B, medium ~%d B and large ~%d B cache files (kill-during-write: ~%d B).",
 		pl.small[0].fileSize, pl.medium[0].fileSize, pl.large[0].fileSize, pl.huge.fileSize)
-	r := &runner{c: c, pool: pl}
+	r := &runner{c: c, pool: pl, ca: ca}
 	g := func(key int) wplan { return wplan{key: key} }
 
 	// (a1) two goroutine writers, same URL: all 70 interleavings x one Get at each of the 9
@@ -457,6 +458,13 @@ func Run(c *common.Ctx) error {
 	if err = r.writeFaults(); err != nil {
 		return err
 	}
+	// (f) CRL numbers / thisUpdate of base and delta in every relation; (g) big entries
+	if err = r.numberedContent(); err != nil {
+		return err
+	}
+	if err = r.bigEntries(); err != nil {
+		return err
+	}
 	// (c) free-running goroutines and processes - supporting evidence
 	if err = r.freeAlternating(); err != nil {
 		return err
@@ -472,6 +480,8 @@ func Run(c *common.Ctx) error {
 	c.Note("stepped: all 70 interleavings of 2 Set calls (4 file-system steps each) on one URL x a Get at each of 9 positions and at each of 45 position pairs (exhaustive), 70 interleavings on two URLs, existing entry + 70, %d interleavings of 3 Set calls (of 34650; thorough = all), %d with ~1 MiB bundles; a probe (directory listing + Get of every URL) follows every step.", n3, nl)
 	c.Note("crash: child-process writer SIGKILLed after each of its 4 steps under all 246 interleavings with a goroutine writer, sampled variants with an existing entry / second URL / large bundle / two children; self-kill at each hook; parent kill during the write of a large bundle (trace reconstructed post mortem from the temp file size).")
 	c.Note("shared content: histories of 2-3 Set calls on one URL whose bundles share a base CRL (with/without delta, two deltas, identical twice, A-B-A, shared delta ...), run by goroutines of one FileCache and by goroutine/child-process mixes, sequentially and interleaved, a Get after every completed Set: the result must be the CONTENT (base and delta) of a latest completed Set.")
+	c.Note("numbered bundles: base CRL #9 with delta CRLs (real delta CRL indicator) numbered below / equal / above the base and issued (thisUpdate) before / after it, alone and as second write after another delta: the Get after the completed Set returns exactly that base AND that delta.")
+	c.Note("big entries: bundles of 20 MiB, 14+14 MiB (base+delta) and 26 MiB DER in quick, plus 1 KiB, 1 MiB, 8 MiB and 31 MiB in thorough (the fetcher accepts CRLs up to 32 MiB; the entry is JSON with base64, x4/3): stored by a stepped writer and read back complete by both FileCache instances after every step.")
 	c.Note("write faults: child-process writer with RLIMIT_FSIZE 0 / 1 / half the entry / 4096 (SIGXFSZ ignored, the writer keeps running), small and large entries, with and without an existing entry, alone and interleaved with a goroutine writer: key absent or complete (old or new), Set reports the error iff its write failed.")
 	c.Note("free-running goroutines and processes: supporting evidence only (the model cannot predict which allowed result a free Get sees; 'agree' there means every result is one the model allows).")
 	return nil
@@ -996,14 +1006,21 @@ func (r *runner) writeFaults() error {
 func (r *runner) freeAlternating() error {
 	file.VerifHook = nil
 	defer installHook()
-	runs, dur := 4, 250*time.Millisecond
+	runs, dur := 8, 250*time.Millisecond
 	if r.c.Thorough() {
-		runs, dur = 16, 400*time.Millisecond
+		runs, dur = 24, 400*time.Millisecond
 	}
 	for run := 0; run < runs; run++ {
 		pl := r.pool
 		plans := []wplan{{key: 0, base: pl.small[0]}, {key: 0, base: pl.medium[0]}, {key: 0, base: pl.small[1], delta: pl.deltas[2]}, {key: 0, base: pl.medium[1]}}
-		w, err := newWorld(r.c, r.pool, 1, plans)
+		// odd runs: the second goroutine works on a SECOND URL of the family through the same
+		// FileCache value (operations on different URLs overlap inside one cache object)
+		written := 1
+		if run%2 == 1 {
+			plans[2].key, plans[3].key = 1, 1
+			written = 2
+		}
+		w, err := newWorld(r.c, r.pool, written, plans)
 		if err != nil {
 			return err
 		}
@@ -1017,8 +1034,10 @@ func (r *runner) freeAlternating() error {
 		for k := range w.urls {
 			record(k, w.get(k), false)
 		}
-		if err := w.cache.Set(context.Background(), w.urls[0], w.bundle(0)); err != nil {
-			return err
+		for k := 0; k < written; k++ {
+			if err := w.cache.Set(context.Background(), w.urls[k], w.bundle(2*k)); err != nil {
+				return err
+			}
 		}
 		stop := make(chan struct{})
 		var wg sync.WaitGroup
@@ -1040,7 +1059,7 @@ func (r *runner) freeAlternating() error {
 					default:
 					}
 					idx := 2*g + i%2 // small, medium, small, medium ...
-					if err := w.cache.Set(context.Background(), w.urls[0], w.bundle(idx)); err != nil {
+					if err := w.cache.Set(context.Background(), w.urls[plans[idx].key], w.bundle(idx)); err != nil {
 						mu.Lock()
 						setErr = err
 						mu.Unlock()
@@ -1066,10 +1085,10 @@ func (r *runner) freeAlternating() error {
 					default:
 					}
 					for k := range w.urls {
-						if rd%2 == 0 {
-							record(k, w.get(k), k == 0)
+						if rd%3 != 2 { // two thirds of the readers share the writers' FileCache value
+							record(k, w.get(k), k < written)
 						} else {
-							record(k, w.classify(w.reader.Get(context.Background(), w.urls[k])), k == 0)
+							record(k, w.classify(w.reader.Get(context.Background(), w.urls[k])), k < written)
 						}
 						n++
 					}
@@ -1109,6 +1128,139 @@ func (r *runner) freeAlternating() error {
 			r.c.Note("free run with alternating entry sizes (%v, one of %d): %d Set calls by 2 goroutines, %d Gets by 6 readers.", dur, runs, sets, gets)
 		}
 		w.cleanup()
+	}
+	return nil
+}
+
+// numberedContent: the cache is a store - whatever relation the CRL numbers and thisUpdate times
+// of base and delta have, the bundle handed to a completed Set is what Get returns.
+func (r *runner) numberedContent() error {
+	mint := func(number int64, o crlOpts) (*bund, error) {
+		o.absLen = smallLen
+		if o.entries == 0 {
+			o.entries = 3
+		}
+		b, err := makeCRL(r.ca, number, r.c.WorkDir, o)
+		if err != nil {
+			return nil, err
+		}
+		return r.pool.add(b), nil
+	}
+	base, err := mint(9, crlOpts{thisUpdate: -2 * time.Hour})
+	if err != nil {
+		return err
+	}
+	base2, err := mint(9, crlOpts{thisUpdate: -2 * time.Hour, entries: 5}) // another CRL with the same number
+	if err != nil {
+		return err
+	}
+	type dv struct {
+		name string
+		b    *bund
+	}
+	var deltas []dv
+	for _, n := range []struct {
+		name string
+		num  int64
+	}{{"number-below", 8}, {"number-equal", 9}, {"number-above", 10}, {"number-far-below", 1}} {
+		for _, t := range []struct {
+			name string
+			d    time.Duration
+		}{{"issued-before", -3 * time.Hour}, {"issued-after", -30 * time.Minute}, {"issued-same", -2 * time.Hour}} {
+			d, err := mint(n.num, crlOpts{thisUpdate: t.d, deltaOf: 9})
+			if err != nil {
+				return err
+			}
+			deltas = append(deltas, dv{n.name + "," + t.name, d})
+		}
+	}
+	above := deltas[7].b // number above, issued after
+	for di, d := range deltas {
+		for mode := 0; mode < 2; mode++ { // goroutine / child process
+			child := mode == 1
+			// (i) the only write; (ii) after a write with a newer delta; (iii) followed by the base alone;
+			// (iv) the delta attached to another base CRL bearing the same number
+			hs := [][]wplan{
+				{{key: 0, base: base, delta: d.b, child: child}},
+				{{key: 0, base: base, delta: above}, {key: 0, base: base, delta: d.b, child: child}},
+				{{key: 0, base: base, delta: d.b, child: child}, {key: 0, base: base}},
+				{{key: 0, base: base2, delta: d.b, child: child}, {key: 0, base: base, delta: d.b}},
+			}
+			for hi, plans := range hs {
+				if mode == 1 && hi >= 2 && !r.c.Thorough() && di%3 != 0 {
+					continue
+				}
+				n := len(plans)
+				var order []int
+				gets := map[int][]int{}
+				for i := 0; i < n; i++ {
+					order = append(order, i, i, i, i)
+					gets[4*(i+1)] = []int{0}
+				}
+				if err := r.one("numbered-delta:"+d.name, 1, plans, func(w *world) []Ev {
+					return trace(w, full(n), order, gets)
+				}); err != nil {
+					return err
+				}
+			}
+		}
+	}
+	return nil
+}
+
+// bigEntries: a completed write of a big (but legal: each CRL below the fetcher's 32 MiB) bundle is
+// read back complete.
+func (r *runner) bigEntries() error {
+	const MiB = 1 << 20
+	type sz struct {
+		name        string
+		base, delta int
+		quick       bool
+	}
+	sizes := []sz{
+		{"1KiB", 1 << 10, 0, false}, {"1MiB", MiB, 0, false}, {"8MiB", 8 * MiB, 0, false},
+		{"20MiB", 20 * MiB, 0, true}, {"14+14MiB", 14 * MiB, 14 * MiB, true}, {"26MiB", 26 * MiB, 0, true},
+		{"31MiB", 31 * MiB, 0, false},
+	}
+	num := int64(700)
+	for _, z := range sizes {
+		if !z.quick && !r.c.Thorough() {
+			continue
+		}
+		mint := func(pad int, deltaOf int64) (*bund, error) {
+			num++
+			b, err := makeCRL(r.ca, num, r.c.WorkDir, crlOpts{entries: 2, pad: pad, absLen: largeLen, deltaOf: deltaOf})
+			if err != nil {
+				return nil, err
+			}
+			return r.pool.add(b), nil
+		}
+		base, err := mint(z.base, 0)
+		if err != nil {
+			return err
+		}
+		var delta *bund
+		if z.delta > 0 {
+			if delta, err = mint(z.delta, num); err != nil {
+				return err
+			}
+		}
+		for _, child := range []bool{false, true} {
+			if child && z.delta == 0 && !r.c.Thorough() {
+				continue
+			}
+			plans := []wplan{{key: 0, base: base, delta: delta, child: child}}
+			if err := r.one("big-entry:"+z.name, 1, plans, func(w *world) []Ev {
+				// a Get before, the four steps, a Get and one probe afterwards (each Get of such an entry costs)
+				return []Ev{{Kind: "get", A: 0}, {Kind: "create", A: 0}, {Kind: "write", A: 0, B: w.dataLen(0)},
+					{Kind: "close", A: 0}, {Kind: "rename", A: 0}, {Kind: "get", A: 0}, {Kind: "probe"}}
+			}); err != nil {
+				return err
+			}
+		}
+		// the CRL bytes are not needed any more: let the classification forget them
+		r.pool.forget(base)
+		r.pool.forget(delta)
 	}
 	return nil
 }
